@@ -206,3 +206,84 @@ Definition run_bound (c : nat * nat * list (list Qc) * list Qc * (Qc * Qc) * nat
     end
   | _, _ => [0%Z]
   end.
+
+(* ---- multi-output objectives ---------------------------------------------------------- *)
+(* IndependentMultitaskVariationalStrategy / LMCVariationalStrategy + MultitaskGaussianLikelihood
+   (gpytorch/variational/independent_multitask_variational_strategy.py, lmc_variational_strategy.py):
+   L latent sparse GPs (each a q(f_l) and a KL_l through the C14 model), a mixing matrix A (L x T;
+   the identity for independent tasks): task t at point i has the marginal
+   N(sum_l A_lt mean_l(i), sum_l A_lt^2 var_l(i) + jm) (jm: the diagonal jitter LMCVariationalStrategy adds to the
+   mixed covariance, 0 for independent tasks); the likelihood factorises over points and tasks
+   with the noise variances s2 (B x T); KL = sum_l KL_l.  The minibatch size of the objective is the
+   number of POINTS B (the first event dimension of q(f)), whatever the number of tasks. *)
+Section MultiOutput.
+Context {K : Fld}.
+Local Open Scope fld_scope.
+
+(* the likelihood term of point i: the sum over the T tasks *)
+Definition mt_point_ell (T : nat) (e : nat -> nat -> car) (i : nat) : car := sum T (fun t => e i t).
+(* objective of a minibatch of B points with T tasks *)
+Definition mt_elbo_value (B T : nat) (e : nat -> nat -> car) (kl beta ndata logprior added : car) : car :=
+  elbo_value (sum B (mt_point_ell T e)) (C02_mll.of_nat B) kl beta ndata logprior added.
+(* the variant that takes the minibatch size from the LAST dimension of the targets (the number of tasks) *)
+Definition mt_elbo_value_by_tasks (B T : nat) (e : nat -> nat -> car) (kl beta ndata logprior added : car) : car :=
+  elbo_value (sum B (mt_point_ell T e)) (C02_mll.of_nat T) kl beta ndata logprior added.
+(* LMC marginals of task t at point i from the latent marginals *)
+Definition lmc_mean (L : nat) (A : M) (mu : nat -> nat -> car) (i t : nat) : car := sum L (fun l => A l t * mu l i).
+Definition lmc_var (L : nat) (A : M) (jm : car) (v : nat -> nat -> car) (i t : nat) : car :=
+  sum L (fun l => A l t * A l t * v l i) + jm.
+
+End MultiOutput.
+
+Local Existing Instance QcF | 0.
+
+(* case = (latents (elbo cases: their y / noise / beta / priors fields are not used), (A (L rows of T), jm),
+           y (B rows of T), noise variances (B rows of T), (beta, num_data), priors, added)
+   result: [0] on failure, else
+   1 :: task means (B*T, row-major) ++ task variances (B*T) ++ ser(KL) ++ ser(VariationalELBO) ++ ser(PredictiveLogLikelihood) *)
+Definition mt_case : Type :=
+  (list elbo_case * (list (list Qc) * Qc) * list (list Qc) * list (list Qc) * (Qc * Qc) * list Qc * list Qc)%type.
+
+Definition latent_qf (c : elbo_case) : option (list Qc * list Qc * expr) :=
+  let '(strat, (m, n), kj, mu, (jzz, jxx), kind, p1, p2, l, _, _, _, _, _) := c in
+  match qf_and_kl strat m n (of_list kj) (vec_of_list mu) jzz jxx kind (vec_of_list p1) (of_list p2) (of_list l) with
+  | None => None
+  | Some (pm, pc, kl, _) => Some (map (fun i => pm i O) (seq 0 n), map (fun i => pc i i) (seq 0 n), kl)
+  end.
+
+Fixpoint all_some {A : Type} (l : list (option A)) : option (list A) :=
+  match l with
+  | [] => Some []
+  | None :: _ => None
+  | Some a :: r => match all_some r with Some r' => Some (a :: r') | None => None end
+  end.
+
+Definition run_mt_elbo (c : mt_case) : list Z :=
+  let '(lats, (A, jm), y, s2, (beta, ndata), priors, added) := c in
+  match all_some (map latent_qf lats) with
+  | None => [0%Z]
+  | Some qs =>
+      let B := length y in
+      let T := length (hd [] y) in
+      let qa := combine qs A in
+      let mean (i t : nat) : Qc :=
+        C02_mll.qsum (map (fun qa0 : (list Qc * list Qc * expr) * list Qc =>
+                             (nth t (snd qa0) 0 * nth i (fst (fst (fst qa0))) 0)%Qc) qa) in
+      let var (i t : nat) : Qc :=
+        C02_mll.qsum (map (fun qa0 : (list Qc * list Qc * expr) * list Qc =>
+                             (nth t (snd qa0) 0 * nth t (snd qa0) 0 * nth i (snd (fst (fst qa0))) 0)%Qc) qa) + jm in
+      let pairs := flat_map (fun i => map (fun t => (i, t)) (seq 0 T)) (seq 0 B) in
+      let yv (p : nat * nat) : Qc := nth (snd p) (nth (fst p) y []) 0%Qc in
+      let sv (p : nat * nat) : Qc := nth (snd p) (nth (fst p) s2 []) 1%Qc in
+      let rat_e := map (fun p => ell_rat (yv p) (mean (fst p) (snd p)) (var (fst p) (snd p)) (sv p)) pairs in
+      let rat_p := map (fun p => logn_rat (yv p) (mean (fst p) (snd p)) (var (fst p) (snd p) + sv p)%Qc) pairs in
+      let tot := map (fun p => (var (fst p) (snd p) + sv p)%Qc) pairs in
+      let ell := gauss_sum rat_e (map sv pairs) in
+      let pll := gauss_sum rat_p tot in
+      let kl := fold_right (fun q acc => EAdd (snd q) acc) (EConst 0%Qc) qs in
+      1%Z :: flat_map (fun p => ser_qc (mean (fst p) (snd p))) pairs
+          ++ flat_map (fun p => ser_qc (var (fst p) (snd p))) pairs
+          ++ ser_expr kl
+          ++ ser_expr (elbo_expr ell (qn B) kl beta ndata priors added)
+          ++ ser_expr (elbo_expr pll (qn B) kl beta ndata priors added)
+  end.
